@@ -103,6 +103,35 @@ def opAssign (d : Val) (k : Val) (f : String) (v : Val) : Out Val :=
     | _ => .ok (.list [d, ofBool false])
   | _ => .throw
 
+/-- a right-hand side that READS the dictionary being updated: `d[k2]`, `d !? k2`, `k2 in d`,
+`len(d)`, `d` itself -/
+def rhsEval (d : Val) (form : String) (k2 : Val) : Out Val :=
+  match form with
+  | "get" => index hit d k2
+  | "sget" => safeIndex hit d k2
+  | "self" => .ok d
+  | "len" => match d with
+    | .dict kvs _ => .ok (.num (.int (.small kvs.length)))
+    | _ => .throw
+  | "in" => match d with
+    | .dict kvs _ => (toKey k2).map fun k => ofBool (contains hit kvs k)
+    | _ => .throw
+  | _ => .throw
+
+/-- `d[k] f= <rhs reading d>`: the old left-hand value is read, THEN the right-hand side is
+evaluated against the dictionary as it still is (the slot keeps its value), only then is the slot
+overwritten with null, the operator run and the result stored.  A raising read or right-hand side
+leaves the dictionary untouched. -/
+def opAssignRhs (d : Val) (k : Val) (f : String) (form : String) (k2 : Val) : Out Val :=
+  match index hit d k with
+  | .ok _ =>
+    match rhsEval hit d form k2 with
+    | .ok v => opAssign hit d k f v
+    | _ => .ok (.list [d, ofBool false])
+  | _ => match d with
+    | .dict _ _ => .ok (.list [d, ofBool false])
+    | _ => .throw
+
 /-- `obj_in` with a dict on the right -/
 def isIn (k : Val) (d : Val) : Out Val :=
   match d with
